@@ -637,7 +637,7 @@ def prepare():
     _scan_pristine()
 
 
-def run_child_forked(child_args, world, plan, simpid, clock_base, fresh=False):
+def run_child_forked(child_args, world, plan, simpid, clock_base, fresh=False, cwd=None):
     """Run the real runner for one layer in a forked process; return (tape, wait status)."""
     r, w = os.pipe()
     with warnings.catch_warnings():
@@ -649,6 +649,8 @@ def run_child_forked(child_args, world, plan, simpid, clock_base, fresh=False):
             os.close(r)
             signal.alarm(60)
             # a real child is a fresh interpreter
+            if cwd is not None:
+                os.chdir(cwd)       # Popen(cwd=...); cwd=None: the parent's directory right now
             purge_world_modules()
             pkg, Rec = sys.modules['zope.testrunner'], RecordingRunner
             if fresh:
@@ -674,8 +676,11 @@ def run_child_forked(child_args, world, plan, simpid, clock_base, fresh=False):
                     _tape_write(w, b'R', json.dumps(
                         runner_truth(Rec.instances[-1])).encode())
             except SystemExit as e:
+                # (run_internal never exits by itself: something in the world did)
+                _tape_write(w, b'U', b'SystemExit')
                 code = e.code if isinstance(e.code, int) else 1
-            except BaseException:
+            except BaseException as e:
+                _tape_write(w, b'U', type(e).__name__.encode())
                 # an uncaught exception in a real child prints a traceback to its sys.stderr
                 # (which the runner aliased to its stdout) and exits 1
                 try:
@@ -761,6 +766,15 @@ class SimPopen:
                 env.fired.append('spawn_fail')
                 s.log.append(('spawn-fail', layer))
                 s.switch()
+                kind = e.get('exc', 'OSError')
+                if kind == 'ValueError':
+                    raise ValueError('embedded null byte (injected spawn failure)')
+                if kind == 'UnicodeEncodeError':
+                    # an argument that the file-system encoding cannot represent
+                    raise UnicodeEncodeError('ascii', '\xfc', 0, 1, 'ordinal not in range(128) '
+                                             '(injected spawn failure)')
+                if kind == 'SubprocessError':
+                    raise real_subprocess.SubprocessError('injected spawn failure')
                 raise OSError(getattr(errno, e.get('errno', 'ENOMEM')), 'injected spawn failure')
         env.spawn_count[layer] = env.spawn_count.get(layer, 0) + 1
         simpid = len(s.actors) + 1
@@ -768,7 +782,7 @@ class SimPopen:
         skew = env.knobs.get('child_skew') or []
         base = env.clock.now + (skew[(simpid - 1) % len(skew)] if skew else 0.0)
         tape, status = run_child_forked(child_args, env.world, env.plan, simpid, base,
-                                        fresh=env.fresh_child)
+                                        fresh=env.fresh_child, cwd=kw.get('cwd'))
         info = env.prepare_tape(layer, simpid, tape, status, child_args)
         cap = env.knobs.get('pipe_capacity', 65536)
         self.actor = Actor(s, layer, simpid, info['tape'], cap, env.on_child_event)
@@ -1097,10 +1111,15 @@ class Env:
             elif tag == 'X':
                 exitcode = payload
         died = None
+        uncaught = [p.decode() if isinstance(p, bytes) else p for t, p in tape if t == 'U']
         if os.WIFSIGNALED(status):
             died = 'signal:%d' % os.WTERMSIG(status)
         elif exitcode is None:
             died = 'exit:%d' % os.WEXITSTATUS(status)
+        elif uncaught:
+            # the run inside the child was ended by an exception nobody caught (sys.exit() in
+            # a layer hook, ^C): whatever it still wrote while unwinding is no report of a run
+            died = 'uncaught:%s' % uncaught[0]
         # locate the report: the E bytes written inside SubProcess.report (bracketed by M/N
         # records when that method exists to be wrapped), else the E bytes after the child
         # closed its stdout (C record)
@@ -1218,7 +1237,7 @@ class Env:
                 seen_close = True
             elif tag == 'E' and seen_close:
                 delivered += payload
-        complete = bool(report) and truth is not None and \
+        complete = bool(report) and truth is not None and not uncaught and \
             delivered.startswith(report.rstrip())
         info['report_complete'] = bool(complete)
         # anything on the E stream before the report that parses as three integers?
@@ -1401,6 +1420,9 @@ def execute(spec, options, sched_mode=None, knobs=None, defaults=None, label='ma
             run_kwargs=None, found_suites=None):
     """One complete run of the real runner on spec's world under the simulator."""
     knobs = dict(spec.get('knobs') or {}, **(knobs or {}))
+    from . import world as _Wm
+    if _Wm.LAST_ROOT and os.path.isdir(_Wm.LAST_ROOT):
+        os.chdir(_Wm.LAST_ROOT)     # every execution starts in the world's directory
     prepare()
     global _DIRTY
     _DIRTY = True
